@@ -59,6 +59,7 @@ var rewrites = map[string]map[string]string{
 		"MkdirTemp": "MkdirTemp", "Args": "Args()", "File": "File", "Symlink": "Symlink", "Readlink": "Readlink", "Link": "Link", "SameFile": "SameFile",
 	},
 	"path/filepath": {"Abs": "Abs", "EvalSymlinks": "EvalSymlinks"},
+	"os/exec":       {"LookPath": "LookPath"},
 	"io/ioutil":     {"ReadFile": "ReadFile", "WriteFile": "WriteFile", "TempFile": "CreateTemp", "TempDir": "MkdirTemp"},
 	"time":          {"Now": "Now", "Since": "Since"},
 	"math/rand": {"Int": "RandInt", "Intn": "RandIntn", "Int63": "RandInt63", "Int31": "RandInt31",
@@ -72,7 +73,7 @@ var rewrites = map[string]map[string]string{
 
 var keepalive = map[string]string{
 	"os": "ErrNotExist", "path/filepath": "Separator", "io/ioutil": "Discard", "time": "Nanosecond",
-	"math/rand": "Int", "math/rand/v2": "Int", "crypto/rand": "Reader", "maps": "Clone[map[int]int]",
+	"math/rand": "Int", "math/rand/v2": "Int", "crypto/rand": "Reader", "maps": "Clone[map[int]int]", "os/exec": "ErrNotFound",
 }
 
 // selectors that touch the environment but have no seam: reported.
